@@ -765,6 +765,8 @@ def corpus():
     ]
     out = [{"base": B0, "ops": o} for o in ops]
     out.append({"base": B0, "ops": [["new_dir", "n", 0, None], ["new_file", "f", 6, "F", 21, None]], "fmt": "git"})
+    out.append({"base": [[0, "e", "f", "E1", True, 1], [0, "a", "d", "", False, 2]],
+                "ops": [["new_dir", "a", 0, 2]], "fmt": "git"})     # duplicate directories (git finding)
     return out
 
 
@@ -863,6 +865,9 @@ def finding_matches(fid, inp, obs, why):
     if fid == "C14-resolve-keyerror":
         return (why.startswith("resolve_conflicts raised KeyError")
                 and any(r[0] == 2 for r in obs[1]))
+    if fid == "C14-git-duplicate-dirs-keyerror":
+        return (why.startswith("resolve_conflicts raised KeyError") and inp.get("fmt") == "git"
+                and any(r[0] == 3 for r in obs[1]))
     if fid == "C14-resolve-valueerror":
         return (why.startswith("resolve_conflicts raised ValueError")
                 and (bool(_created(inp)) or any(b[5] is None for b in inp["base"])))
@@ -944,4 +949,4 @@ def shrink(inp, fails):
 FINDINGS = ["C14-preview-content-exec", "C14-preview-path-lookup", "C14-replaced-directory",
             "C14-resolve-keyerror", "C14-resolve-valueerror", "C14-resolve-duplicatekey",
             "C14-unversion-unversioned", "C14-unversion-new-id", "C14-reversion", "C14-dead-versioned-child",
-            "C14-git-preview-is-versioned"]
+            "C14-git-preview-is-versioned", "C14-git-duplicate-dirs-keyerror"]
